@@ -42,7 +42,8 @@ Inductive pp_op : Type :=
   | OpWithPeriod (p : R)
   | OpAssignPeriod (p : R)
   | OpSetApodization (a : apodization)
-  | OpWithApodization (a : apodization).
+  | OpWithApodization (a : apodization)
+  | OpAsOptimum (p : R).   (* try_as_optimum when the optimiser (an oracle) returns Ok(p) *)
 
 Definition pp_step (s : periodic_poling) (op : pp_op) : periodic_poling :=
   match op with
@@ -50,6 +51,7 @@ Definition pp_step (s : periodic_poling) (op : pp_op) : periodic_poling :=
   | OpAssignPeriod p => pp_assign_period s p
   | OpSetApodization a => pp_set_apodization s a
   | OpWithApodization a => pp_with_apodization s a
+  | OpAsOptimum p => match pp_try_as_optimum (Some p) s with Some s' => s' | None => s end
   end.
 
 Definition pp_run (s : periodic_poling) (ops : list pp_op) : periodic_poling := fold_left pp_step ops s.
@@ -59,8 +61,8 @@ Definition request : Type := option (R * apodization).
 
 Definition request_step (r : request) (op : pp_op) : request :=
   match op, r with
-  | OpWithPeriod p, None => Some (p, ApOff)
-  | OpWithPeriod p, Some (_, a) => Some (p, a)
+  | OpWithPeriod p, None | OpAsOptimum p, None => Some (p, ApOff)
+  | OpWithPeriod p, Some (_, a) | OpAsOptimum p, Some (_, a) => Some (p, a)
   | OpAssignPeriod p, None => None
   | OpAssignPeriod p, Some (_, a) => Some (p, a)
   | OpSetApodization a, None | OpWithApodization a, None => None
@@ -78,7 +80,7 @@ Definition rep (r : request) : periodic_poling :=
 
 Definition op_ok (op : pp_op) : Prop :=
   match op with
-  | OpWithPeriod p | OpAssignPeriod p => p <> 0
+  | OpWithPeriod p | OpAssignPeriod p | OpAsOptimum p => p <> 0
   | _ => True
   end.
 
